@@ -447,3 +447,15 @@ mod tests {
         }
     }
 }
+
+#[cfg(feature = "verif_hooks")]
+impl NetcodeClient {
+    /// Counter preset: send sequence of the client.
+    pub fn verif_set_sequence(&mut self, sequence: u64) {
+        self.sequence = sequence;
+    }
+
+    pub fn verif_sequence(&self) -> u64 {
+        self.sequence
+    }
+}
